@@ -57,12 +57,12 @@ theorem run_structEq (ops : List Op) (s : S) (h : ∀ op ∈ ops, op.keepsStruct
     simp only [run]
     exact structEq_trans (ih _ (fun o ho => h o (by simp [ho]))) (step_structEq s op (h op (by simp)))
 
-theorem pruneOps_keepsStructure (s : S) (off : OId) (k : CKind) (x : OId) (hk : k = .definition ∨ k = .library) :
+theorem pruneOps_keepsStructure (s : S) (off : OId) (k : CKind) (x : OId) (hk : k = .definition ∨ k = .library ∨ k = .netlist) :
     ∀ op ∈ pruneOps s off k x, op.keepsStructure := by
   intro op hop
   simp only [pruneOps, List.mem_append] at hop
   rcases hop with hop | hop
-  · rcases hk with rfl | rfl <;>
+  · rcases hk with rfl | rfl | rfl <;>
       simp only [pruneInside, List.mem_append, List.mem_flatMap, List.mem_map, List.mem_filter] at hop
     · rcases hop with ⟨j, _, rfl⟩ | hop
       · trivial
@@ -72,13 +72,15 @@ theorem pruneOps_keepsStructure (s : S) (off : OId) (k : CKind) (x : OId) (hk : 
       · trivial
       · obtain ⟨n, _, hm⟩ := optOps_mem _ _ _ hop
         simp only [List.mem_singleton] at hm; subst hm; trivial
+    · obtain ⟨l, _, d, _, j, _, rfl⟩ := hop
+      trivial
   · obtain ⟨i, r, rfl⟩ := pruneCross_shape s off k x op hop
     trivial
 
-/-- **a cloned definition or library has the same internal structure**: ports, their pins, cables, their
+/-- **a cloned definition, library or netlist (self-contained or not) has the same internal structure**: ports, their pins, cables, their
     wires, child instances — same members, same order — and every inner pin sits on the copy of the wire its
     original sits on; all resolved inside the copy (twin of `x` is `x + off`). -/
-theorem cloneElem_same_structure (s : S) (off : OId) (k : CKind) (e : OId) (hk : k = .definition ∨ k = .library) (x : OId) :
+theorem cloneElem_same_structure (s : S) (off : OId) (k : CKind) (e : OId) (hk : k = .definition ∨ k = .library ∨ k = .netlist) (x : OId) :
     let t := s.cloneElem off k e
     t.ports (x + off) = shL off (s.ports x) ∧ t.pins (x + off) = shL off (s.pins x) ∧
     t.cables (x + off) = shL off (s.cables x) ∧ t.wires (x + off) = shL off (s.wires x) ∧
